@@ -386,8 +386,9 @@ def run(ctx, load):
             ctx.floors.pop(k)
     ctx.floor('C18.collector-keeps-what-containers-hold', 10)
     # ... and never reclaims what is reachable only through a raw (unregistered) part of an object (shared with C01)
-    from .rules_c01 import check_raw_parts
+    from .rules_c01 import check_raw_parts, check_root_flag
     check_raw_parts(P, ctx, rule='C18.collector-keeps-what-raw-parts-hold')
+    ctx.borrow('C18.collector-keeps-roots', 5, lambda: check_root_flag(P, ctx))
     # ... and finalises an object once: without the collector del finalises directly; with it, a deletion that races the sweep's pending
     # list must not finalise a second time (shared with C06.sweep-once)
     from .rules_c06 import check_sweep
